@@ -30,6 +30,9 @@ def run(ctx):
     ctx.rule("C11.R5", "K1", "(= C10.R2) the timeout the scanner and the workers use is the configured one after every reload: setup() refreshes it, nothing derived from the configuration lives in __init__ only")
     from .c10 import setup_refresh
     setup_refresh(ctx, "C11.R5", (("timeout", "timeout"),))
+    # killing a hung worker makes it die: its SIGCHLD pops the entry while murder_workers is still scanning
+    ctx.rule("C11.R6", "K9", "(= C03.R7) the timeout scan survives the deaths it causes: no live iteration of WORKERS (a RuntimeError in the main loop takes the whole server down)")
+    _alias(ctx, c03.r7, "C03.R7", "C11.R6")
 
 
 def clocks_in(repo, f, node=None):
@@ -48,7 +51,7 @@ def r1(ctx):
     # the value written: names in the times tuple -> their defining clock call
     wclk = set()
     for c in ut:
-        for a in c.args[1:]:
+        for a in list(c.args[1:]) + [k.value for k in c.keywords if k.arg in ("times", "ns")]:
             for x in through_locals(fn, a):
                 if isinstance(x, ast.Name):
                     for s in stores_to_name(fn, x.id):
